@@ -12,6 +12,8 @@ def plugin_nontrivial(tok, res):
         return res.startswith("L=") and "," in res
     if tok[0] == "hist":      # a history in which at least three steps reached the plugins
         w = res.partition(" | ")[2]
+        if ",W:" in tok[1]:   # a heartbeat history (real time): at least one Ping refused and at least three waits
+            return res.startswith("H=") and "no" in res.partition(" | ")[0] and tok[1].count(",W:") >= 3
         return res.startswith("H=") and sum(1 for x in w.split(";") if x != "-") >= 3
     if tok[0] == "sess":      # a session that stopped at least two proxies with a CloseProxy plugin listening
         return res.startswith("L=ok") and res.count("CloseProxy:") >= 2 and res.count("ok:") >= 2
@@ -25,11 +27,18 @@ def plugin_class(res):
     if res.startswith("H="):
         r, _, w = res.partition(" | ")
         outs = r[2:].split(",")
-        logins = sum(1 for o in outs if o.startswith("ok:") and len(o) > 3)
-        return "H;steps=%d+;consulted-steps=%d+;refused=%s;user/work-conn=%s;hung-up=%s" % (
+        pings = [o for o in outs if o in ("ok+", "ok=", "no+", "no=")]
+        if any(o.startswith("g") for o in outs):
+            # a heartbeat history in which the server dropped sessions by itself while the peer waited
+            dropped = sum(len(o[1:].split("!")[0].split("+")) for o in outs if o.startswith("g"))
+            return "Hbeat;dropped-in-wait=%d;pings-counted=%s;pings-refused=%s;alive-at-end=%s" % (
+                dropped, "y" if "ok+" in pings else "n", "y" if "no=" in pings else "n",
+                "y" if any(o in ("ok+", "no=") for o in outs[-4:]) else "n")
+        return "H;steps=%d+;consulted-steps=%d+;refused=%s;user/work-conn=%s;hung-up=%s;pings=%s" % (
             len(outs) // 4 * 4, sum(1 for x in w.split(";") if x != "-") // 3 * 3,
-            "y" if any(o in ("no", "no/-", "ok/no") for o in outs) else "n",
-            "y" if any("/" in o for o in outs) else "n", "y" if "closed" in outs else "n")
+            "y" if any(o in ("no", "no=", "no+", "no/-", "ok/no") for o in outs) else "n",
+            "y" if any("/" in o for o in outs) else "n", "y" if "closed" in outs else "n",
+            "+".join(sorted(set(pings))) or "-")
     if res.startswith("L=") and ";S=" in res:
         r, _, w = res.partition(" | ")
         n = w.count("CloseProxy:")
@@ -46,7 +55,7 @@ def plugin_class(res):
 
 PROP = {
         "level": "proof",
-        "gens": [],
+        "gens": ["PluginSiteFacts"],
         "theorems": [
             "Frp.C15.register_list", "Frp.C15.registerAll_list", "Frp.C15.registered_chain",
             "Frp.C15.gated_consulted", "Frp.C15.gated_result", "Frp.C15.gated_ok_iff",
@@ -66,6 +75,11 @@ PROP = {
             "Frp.C15.login_gated_every_kind", "Frp.C15.add_unique", "Frp.C15.effect_only_through_gate",
             "Frp.C15.session_user_is_login_rewrite", "Frp.C15.proxy_name_is_newproxy_rewrite",
             "Frp.C15.offered_carries_session_user",
+            "Frp.C15.step_clock", "Frp.C15.lastPing_only_through_gate", "Frp.C15.refused_ping_changes_nothing",
+            "Frp.C15.quiet_history_keeps_clocks", "Frp.C15.hbCheck_spec", "Frp.C15.unrenewed_session_is_dropped",
+            "Frp.C15.alive_after_check_is_recent", "Frp.C15.clocks_le_now",
+            "Frp.C15.pingHoldsOn_sound", "Frp.C15.model_pingHoldsOn",
+            "Frp.C15.expiryHoldsOn_sound", "Frp.C15.model_expiryHoldsOn", "Frp.C15.code_ping_store_gated",
             "Frp.ListW.Interleave.perm", "Frp.ListW.Interleave.sublist", "Frp.ListW.Interleave.sequential",
             "Frp.C15.errMsg_ne_nil", "Frp.C15.empty_error_only_from_empty_reason",
             "Frp.C15.refusal_reported_witness", "Frp.C15.refusal_reported", "Frp.C15.refusal_reported_partial",
@@ -82,9 +96,14 @@ PROP = {
                 "for some proxy names only) and `hist` (a history on a real frps: several control connections, logins with an empty / "
                 "literal / earlier session's run id — live = re-login that replaces, closed before = stale —, behaviour flips of the "
                 "registered plugins between steps (accept, rewrite, partial rewrite, reject, content-dependent reject / failure, HTTP "
-                "error, reset, malformed), repeated NewProxy on new / used names, Ping, user + work connections, connection closes); a case is non-trivial when at least two plugins were consulted or the operation was "
+                "error, reset, malformed), repeated NewProxy on new / used names, Ping (any privilege key, with and without the HeartBeats auth scope; "
+                "the result says whether the session's lastPing moved), user + work connections, connection closes) and, three per run, "
+                "heartbeat histories in real time (a frps with heartbeatTimeout 1 or 2 s, 2..4 sessions pinging in rounds every 0.3..0.5 s "
+                "while the Ping plugins change their mind — reject all / some keys, HTTP 500, reset, garbage, `{}`, for all / some keys, "
+                "maybe consent again —, sessions that fall silent or are closed; the history goes on until every session whose Pings are "
+                "no longer counted is past timeout + 1 s + slack: who is still there is decided by the model clock); a case is non-trivial when at least two plugins were consulted or the operation was "
                 "refused / panicked (call), the scenario got past the login (site), at least two proxies were stopped with a "
-                "CloseProxy plugin listening (sess), at least three steps reached the plugins (hist); distinct = distinct (op line, result) pairs. op_distribution keys are "
+                "CloseProxy plugin listening (sess), at least three steps reached the plugins (hist; heartbeat histories: a Ping was refused and at least three waits); distinct = distinct (op line, result) pairs. op_distribution keys are "
                 "<line kind>:<result kind>/<number of Handle calls made>",
         "trusted": COMMON_TRUST + [
             "model Frp/Model/PluginChain.lean written by hand from pkg/plugin/server/{manager,http,plugin,types}.go; tied by the "
@@ -103,6 +122,17 @@ PROP = {
             "(token check, proxy registration, visitor admission, the random run id) is taken over from the implementation; for Login the "
             "model's second content member stands for the members other than the user (run id …): every scripted behaviour copies them all "
             "or zeroes them all",
+            "the heartbeat: `PluginSite.step` counts a Ping (`lastPing` := now) only on the branch on which chain and VerifyPing passed; "
+            "that `ctl.lastPing.Store` stands there in handlePing (after the `if err != nil {…return}`), that only NewControl writes it "
+            "besides, and the heartbeat worker's condition and period are regenerated from server/control.go on every run "
+            "(translate/gen_pluginsitefacts.go, `C15.code_ping_store_gated`); whether a Ping was counted is read through the existing "
+            "hook Service.VerifAuthSessions (LastPing before / after the Pong) and judged by `C15.pingHoldsOn`; VerifyPing's verdict "
+            "is taken over from the implementation",
+            "real time in the heartbeat histories: the model clock (1/10 s) advances only in W steps, which the harness keeps on an "
+            "absolute schedule; a history whose steps overran it by more than 250 ms is void (`infra late`, counted as skipped); a "
+            "session must be alive while (now - last counted heartbeat) + 0.5 s <= timeout, must be gone when it exceeds timeout + 1 s "
+            "(worker period) + 0.5 s (`C15.expiryHoldsOn` on the implementation's answer), in between the observation is taken over; "
+            "a message in flight when the server hangs up: what the plugin server still received of it is taken over",
             "the close notifications of a whole session (control.go CloseProxy + worker: one goroutine per stopped proxy) are tied by the "
             "`sess` lines: bookkeeping and goroutines are the proved `SessP` (Frp/Model/PluginChain.lean), the CloseProxy requests the "
             "plugin server received are judged by `C15.notifyHoldsOn` (a permutation of: every stopped proxy x every registered plugin); "
@@ -119,7 +149,7 @@ META = {
         "engine": "lean+harness(plugin)",
         "design_ref": "DESIGN.md §6 C15",
         "technique": "Lean 4 proofs by induction over the plugin chain for arbitrary handler functions; differential correspondence with the real plugin.Manager and httpPlugin",
-        "text": "Proof: for every list of registered plugins (any supported-op sets, any handler functions that may depend on the content they are handed), every operation and content, the modelled manager method consults exactly the plugins registered for that operation, in registration order, each on the left-to-right composition of the earlier modifications, up to and including the first one that errors / rejects / returns unusable content, nobody after it; it returns ok iff every one of them passed, and then the content is the composition; transport error, non-200, unreadable or unparsable body make Handle fail and hence the operation is refused; CloseProxy notifies every registered plugin with the original content even when earlier ones fail; at the session level every proxy stopped by CloseProxy or by session end is notified exactly once, and with the chain attached (one notification goroutine per stopped proxy, modelled as the code starts them): for every session history, every chain and all handler functions, every order in which the session end ranges over its proxies and every interleaving of the goroutines, the Handle(CloseProxy) calls received are a permutation of {stopped proxy} x {plugin registered for CloseProxy} (nothing lost behind a failing plugin or a failed notification, nothing twice) and each notification calls the chain in order; at the call sites, for every HISTORY (several sessions; logins with an empty, unknown, live (re-login / replacement) or ended run id; the same operation any number of times; a plugin manager that may be another one at every step, i.e. behaviours that flip between operations): every visit of a call site is a run of the chain of that moment, the server goes on (session stored / replaced, proxy registered, pong, work connection pooled, user connection served) only if every plugin then registered for the operation was consulted in order and passed, the server state changes only through such a visit, every Control the server holds was admitted by a consenting Login chain and carries the user as rewritten by it (which is what every later request of the session offers the plugins), every proxy runs under the name as rewritten by a consenting NewProxy chain. Kernel-checked, axioms propext/Classical.choice/Quot.sound only. The hand-written model is tied to the code by replaying 14k (quick) generated operations per run (incl. ~550 one-proxy call-site scenarios, ~550 multi-proxy session scenarios and ~280 multi-session histories with re-logins and behaviour flips against a real frps) on the real Manager (stubs + real httpPlugin over loopback HTTP) and on the model, with the Lean predicate evaluated on the implementation's own results.",
+        "text": "Proof: for every list of registered plugins (any supported-op sets, any handler functions that may depend on the content they are handed), every operation and content, the modelled manager method consults exactly the plugins registered for that operation, in registration order, each on the left-to-right composition of the earlier modifications, up to and including the first one that errors / rejects / returns unusable content, nobody after it; it returns ok iff every one of them passed, and then the content is the composition; transport error, non-200, unreadable or unparsable body make Handle fail and hence the operation is refused; CloseProxy notifies every registered plugin with the original content even when earlier ones fail; at the session level every proxy stopped by CloseProxy or by session end is notified exactly once, and with the chain attached (one notification goroutine per stopped proxy, modelled as the code starts them): for every session history, every chain and all handler functions, every order in which the session end ranges over its proxies and every interleaving of the goroutines, the Handle(CloseProxy) calls received are a permutation of {stopped proxy} x {plugin registered for CloseProxy} (nothing lost behind a failing plugin or a failed notification, nothing twice) and each notification calls the chain in order; at the call sites, for every HISTORY (several sessions; logins with an empty, unknown, live (re-login / replacement) or ended run id; the same operation any number of times; a plugin manager that may be another one at every step, i.e. behaviours that flip between operations): every visit of a call site is a run of the chain of that moment, the server goes on (session stored / replaced, proxy registered, heartbeat counted + pong, work connection pooled, user connection served) only if every plugin then registered for the operation was consulted in order and passed, the server state changes only through such a visit, every Control the server holds was admitted by a consenting Login chain and carries the user as rewritten by it (which is what every later request of the session offers the plugins), every proxy runs under the name as rewritten by a consenting NewProxy chain; the heartbeat clock of a session (lastPing) moves only through a Ping of that session that VerifyPing and every plugin then registered for Ping let through (a rejected Ping, one whose plugin is unreachable / answers non-200 / garbage changes nothing at all), over any history in which no Ping passes the gate every clock stays where it was, and then the first run of the session's heartbeat worker later than last counted heartbeat + timeout ends the session (logical clock, ticks and worker runs interleaved arbitrarily); the position of the lastPing store in handlePing, its writers and the worker's condition are regenerated from the source on every run. Kernel-checked, axioms propext/Classical.choice/Quot.sound only. The hand-written model is tied to the code by replaying 14k (quick) generated operations per run (incl. ~550 one-proxy call-site scenarios, ~550 multi-proxy session scenarios and ~280 multi-session histories with re-logins and behaviour flips against a real frps, 3 of them real-time heartbeat histories with a 1-2 s timeout) on the real Manager (stubs + real httpPlugin over loopback HTTP) and on the model, with the Lean predicate evaluated on the implementation's own results.",
         "known_finding": "C15-empty-reject-reason: reject with reject_reason \"\" is refused server-side but reported to the peer as success (LoginResp/NewProxyResp/Pong/StartWorkConn.Error empty). Minimal repair: in util.GenerateResponseErrorString fall back to the summary when err.Error() is empty (or give Manager a default reject reason).",
         "note": "Trusted: Lean kernel; the hand-written model of manager.go/http.go; the harness generators and its scripted HTTP server. Observations kept faithful in the model: a 200 reply without `unchange` (e.g. `{}` or `null`) is accepted and replaces the content by the zero value; `\"content\": null` with unchange=false panics in the manager's type assertion (the goroutine is not recovered at the call sites); handleUserTCPConnection discards the content returned by NewUserConn; NewUserConn is only hooked for listener-based proxies (tcp, stcp, https, tcpmux), not for http / udp.",
     }
